@@ -158,7 +158,7 @@ def run(chk, ctx):
             for name, st in regs:
                 if st.bottom:
                     continue
-                _, _, _, it = model.init_run(cname, entry=st)
+                _, _, _, it = model.init_run(cname, entry=st, exact=(kind == "ACCEPT"))
                 raises = [o for o in it.outcomes if o.kind == "raise" and not o.state.bottom]
                 normal = [o for o in it.outcomes if o.kind in ("end", "return") and not o.state.bottom]
                 cons = f"{base}#{kind.lower()}[{name}]"
@@ -172,6 +172,10 @@ def run(chk, ctx):
                                rel=rel, node=f)
                 else:
                     ok = True if (normal and not raises) else (False if (raises and not normal) else None)
+                    if ok is None and raises and it.opaque_branches == 0:
+                        # exact evaluation (straight-line code over linear terms, min/max as case splits):
+                        # a feasible raising partition inside a valid region is a definite rejection of valid input
+                        ok = False
                     chk.decide("C17.ACCEPT", cons, ok,
                                f"{cname}({name}): " + ("constructs without raising" if ok else
                                                       f"raises {sorted({o.what for o in raises})} at line(s) {sorted({o.node.lineno for o in raises})}"),
@@ -200,7 +204,7 @@ def run(chk, ctx):
     if not has_guard:
         chk.decide("C17.REJECT", cons, None, "n_advance has no argument guards", rel=rel_a, node=nadv)
     else:
-        chk.decide("C17.REJECT", cons, True if not it.yields else False,
+        chk.decide("C17.REJECT", cons, True if not it.yields else None,
                    "max_n>=2 with no checkpoint unit: " + ("no yield is reachable, the first n_advance call raises" if not it.yields
                    else f"{it.yields[0].yid} is emitted before any error is raised"),
                    rel=rel_m, node=fn)
